@@ -188,6 +188,8 @@ def hyp_reach(b, starts, call_value, stop=(), tyconst=None):
                 o = rv["o"]
                 if o.get("k") == "const" and "int" in o:
                     v = o["int"]
+                elif o.get("k") == "const" and tyconst and o.get("tyconst") in tyconst:
+                    v = tyconst[o["tyconst"]]
                 elif o.get("k") in ("copy", "move") and not o["pl"]["p"] and o["pl"]["l"] in env:
                     v = env[o["pl"]["l"]]
             elif rv["r"] == "un" and rv["op"] == "Not" and op_local(rv["a"]) in env and not rv["a"]["pl"]["p"] and env[op_local(rv["a"])] in (0, 1):
@@ -231,6 +233,9 @@ def hyp_reach(b, starts, call_value, stop=(), tyconst=None):
             if l is not None and not t["discr"]["pl"]["p"] and isinstance(env.get(l), int):
                 tg = dict(t["targets"])
                 succ = [tg.get(env[l], t["otherwise"])]
+            elif t["discr"].get("k") == "const" and tyconst and t["discr"].get("tyconst") in tyconst:
+                tg = dict(t["targets"])
+                succ = [tg.get(tyconst[t["discr"]["tyconst"]], t["otherwise"])]
         nt = tuple(sorted(env.items(), key=repr))
         for s in succ:
             work.append((s, nt))
